@@ -76,7 +76,13 @@ def gen(tier, rng, scale):
             if erng.chance(1, 3) and d > 2:
                 segs, d = _with_zeros(erng, segs, d, keep_leaf=True)
             items.append({"extra": False, "segs": segs, "depth": d})
-        if erng.chance(1, 3):
+            if erng.chance(1, 3) and all(sg[0] == "g" for sg in segs) and d <= 3900:
+                # `perf record --call-graph dwarf,<size>`: the sample carries registers and a copy of the user stack instead of a call chain; the
+                # converter unwinds it (here: a frame-pointer chain), and the stack that comes out is subject to the same depth limiting
+                items[-1]["unwind"] = True
+        if any(it.get("unwind") for it in items):
+            pass
+        elif erng.chance(1, 3):
             # a second recorded event (a tracepoint): its samples become markers, whose call chains are stacks of the profile too
             for it in items:
                 it["marker"] = erng.chance(1, 2)
@@ -258,20 +264,33 @@ def _e2e_markers(samply, case, d):
     return obs
 
 
+_plock = __import__("threading").Lock()
+
+
 def _e2e_one(samply, case, d):
     if any(s.get("marker") for s in case["items"]):
         return _e2e_markers(samply, case, d)
-    recs = [P.comm(100, 100, "deep", ORIGIN + 1, True)]
-    t = ORIGIN + 10
-    for s in case["items"]:
-        lookups = _lookups(s["segs"])            # root first
-        chain = [lookups[-1][0]] + [0 if z else a + 1 for a, z in reversed(lookups[:-1])]     # leaf ip, then return addresses towards the root
-        t += 1000
-        s["_t"] = t
-        recs.append(P.sample(100, 100, t, chain[0], [P.PERF_CONTEXT_USER] + chain))
-    recs.append(P.finished_round())
-    pd = os.path.join(d, "rec.perf.data")
-    open(pd, "wb").write(P.build(recs, first_time=ORIGIN, last_time=t))
+    _plock.acquire()          # the writer's layout is module state
+    P.set_layout(True, True)
+    P.set_user_stack(any(s.get("unwind") for s in case["items"]))
+    try:
+        recs = [P.comm(100, 100, "deep", ORIGIN + 1, True)]
+        t = ORIGIN + 10
+        for s in case["items"]:
+            lookups = _lookups(s["segs"])            # root first
+            chain = [lookups[-1][0]] + [0 if z else a + 1 for a, z in reversed(lookups[:-1])]     # leaf ip, then return addresses towards the root
+            t += 1000
+            s["_t"] = t
+            if s.get("unwind"):
+                recs.append(P.sample(100, 100, t, chain[0], [], unwind=chain[1:]))
+            else:
+                recs.append(P.sample(100, 100, t, chain[0], [P.PERF_CONTEXT_USER] + chain))
+        recs.append(P.finished_round())
+        pd = os.path.join(d, "rec.perf.data")
+        open(pd, "wb").write(P.build(recs, first_time=ORIGIN, last_time=t))
+    finally:
+        P.set_user_stack(False)
+        _plock.release()
     outp = os.path.join(d, "out.json")
     r = subprocess.run([samply, "import", pd, "--save-only", "-o", outp], capture_output=True, text=True, timeout=300)
     if r.returncode != 0 or not os.path.exists(outp):
